@@ -742,11 +742,26 @@ pub fn to_der(message: &dyn ASN1) -> Vec<u8> {
 /// assert!(check_lengths(&[0x30, 0x88, 0xff, 0xff, 0xff, 0xff, 0xff, 0xff, 0xff, 0xff]).is_err());
 /// ```
 pub fn check_lengths(stream: &[u8]) -> RdpResult<()> {
-    check_lengths_at(stream, 0)
+    check_lengths_at(stream, 0, false)
 }
 
-fn check_lengths_at(stream: &[u8], depth: usize) -> RdpResult<()> {
+/// Same check for a DER stream, where a length have
+/// only one encoding : definite, and on the minimal number of octets
+///
+/// # Example
+/// ```
+/// use rdp::nla::asn1::check_der_lengths;
+/// assert!(check_der_lengths(&[0x30, 0x03, 0x02, 0x01, 0x02]).is_ok());
+/// assert!(check_der_lengths(&[0x30, 0x81, 0x03, 0x02, 0x01, 0x02]).is_err());
+/// assert!(check_der_lengths(&[0x30, 0x80, 0x02, 0x01, 0x02, 0x00, 0x00]).is_err());
+/// ```
+pub fn check_der_lengths(stream: &[u8]) -> RdpResult<()> {
+    check_lengths_at(stream, 0, true)
+}
+
+fn check_lengths_at(stream: &[u8], depth: usize, der: bool) -> RdpResult<()> {
     let eof = || Error::ASN1Error(ASN1Error::new(ASN1ErrorKind::Eof));
+    let invalid = || Error::ASN1Error(ASN1Error::new(ASN1ErrorKind::Invalid));
     if depth > 100 {
         return Err(Error::ASN1Error(ASN1Error::new(ASN1ErrorKind::StackOverflow)))
     }
@@ -768,6 +783,9 @@ fn check_lengths_at(stream: &[u8], depth: usize) -> RdpResult<()> {
         let first = *stream.get(pos).ok_or_else(eof)?;
         pos += 1;
         if first == 0x80 {
+            if der {
+                return Err(invalid())
+            }
             // indefinite form : the content (and its end of content octets)
             // is made of elements that are checked like the following ones
             continue;
@@ -783,6 +801,11 @@ fn check_lengths_at(stream: &[u8], depth: usize) -> RdpResult<()> {
             for octet in &stream[pos..pos + size] {
                 value = value << 8 | *octet as u64;
             }
+            // the long form with a leading zero octet, or for a length
+            // that fit the short form, is not the DER encoding
+            if der && (stream[pos] == 0 || value < 0x80) {
+                return Err(invalid())
+            }
             pos += size;
             value
         };
@@ -792,7 +815,7 @@ fn check_lengths_at(stream: &[u8], depth: usize) -> RdpResult<()> {
         let length = length as usize;
         // constructed element
         if identifier & 0x20 != 0 {
-            check_lengths_at(&stream[pos..pos + length], depth + 1)?;
+            check_lengths_at(&stream[pos..pos + length], depth + 1, der)?;
         }
         pos += length;
     }
@@ -801,7 +824,7 @@ fn check_lengths_at(stream: &[u8], depth: usize) -> RdpResult<()> {
 
 /// Deserialize an ASN1 message from a stream
 pub fn from_der(message: &mut dyn ASN1, stream: &[u8]) ->RdpResult<()> {
-    check_lengths(stream)?;
+    check_der_lengths(stream)?;
     Ok(yasna::parse_der(stream, |reader| {
         if let Err(Error::ASN1Error(e)) = message.read_asn1(reader) {
             return Err(e)
